@@ -77,3 +77,26 @@ Fixpoint n_range (start : N) (len : nat) : list N :=
 
 Definition status_code (s : status) : N :=
   match s with Succeeded => 0 | Failed => 1 | Cancelled => 2 end.
+
+(* ---- table probed from real children (coq/gen/Gen_ProcStatus.v): entries (kind, argument, raw, status code)
+   kind 0: child ran "exit <argument>"; kind 1: child ran "kill -<argument> $$; exit 77".
+   The signals whose default action is to be ignored (CHLD 17, CONT 18, URG 23, WINCH 28) leave the child alive. *)
+Definition default_ignored (sg : N) : bool := (sg =? 17) || (sg =? 18) || (sg =? 23) || (sg =? 28).
+
+Definition probe_entry_ok (e : N * N * N * N) : bool :=
+  let '(k, a, raw, st) := e in
+  (st =? status_code (status_of_wait raw)) &&
+  match k with
+  | 0 => (raw =? raw_of_fate (Exited a)) && (st =? status_code (status_of_fate (Exited a)))
+  | _ => if default_ignored a
+         then (raw =? raw_of_fate (Exited 77)) && (st =? status_code Failed)
+         else (wtermsig raw =? a) && (raw <? 256) && (st =? status_code (status_of_fate (Killed a false)))
+  end.
+
+Definition probe_has (tbl : list (N * N * N * N)) (k a : N) : bool :=
+  existsb (fun e => let '(k', a', _, _) := e in (k' =? k) && (a' =? a)) tbl.
+
+(* every exit code 0..255 and every signal 1..31 that terminates or is ignored (all but STOP/TSTP/TTIN/TTOU) was probed *)
+Definition probe_complete (tbl : list (N * N * N * N)) : bool :=
+  forallb (probe_has tbl 0) (n_range 0 (N.to_nat 256)) &&
+  forallb (fun sg => ((19 <=? sg) && (sg <=? 22)) || probe_has tbl 1 sg) (n_range 1 (N.to_nat 31)).
